@@ -187,3 +187,9 @@ package common
 //@ declare keyOf(p string) string
 //@ axiom keyOf("balance") == "balance" && keyOf("metadata") == "metadata"
 //@ axiom forall re *regexp.Regexp, p string :: {reMatch(re, p)} (pat(re) == "^balance\\[(.*)]$" && reMatch(re, p)) ==> keyOf(p) == "balance"
+
+// a date filter value was accepted by queries.TypeDate.ValidateValue before it gets here: no parse error is left to return
+//@ func NormalizeDateFilterValue(value any) (r any, err error)
+//@   property C38
+//@   requires is(value, string) ==> parsesTime(value.(string))
+//@   ensures err == nil
